@@ -435,6 +435,12 @@ class IntDom:
                 raise IntUnsupported("bitwise %s on symbolic operands" % a.lazy[0])
             if a.c is not None:
                 a._u = z3.IntVal(a.c)
+            elif a.srng is not None and a.srng[0] >= 0:
+                a._u = a._s          # known non-negative: both readings coincide
+                if a.urng is None:
+                    a.urng = a.srng
+            elif a.srng is not None and a.srng[1] < 0:
+                a._u = a._s + (1 << a.bits)
             else:
                 a._u = z3.If(a._s < 0, a._s + (1 << a.bits), a._s)
         return a._u
@@ -445,6 +451,12 @@ class IntDom:
                 raise IntUnsupported("bitwise %s on symbolic operands" % a.lazy[0])
             if a.c is not None:
                 a._s = z3.IntVal(a.sc)
+            elif a.urng is not None and a.urng[1] < (1 << (a.bits - 1)):
+                a._s = a._u          # known below the sign bit: both readings coincide
+                if a.srng is None:
+                    a.srng = a.urng
+            elif a.urng is not None and a.urng[0] >= (1 << (a.bits - 1)):
+                a._s = a._u - (1 << a.bits)
             else:
                 a._s = z3.If(a._u >= (1 << (a.bits - 1)), a._u - (1 << a.bits), a._u)
         return a._s
@@ -566,9 +578,16 @@ class IntDom:
                 return self.mk_s(n, self.wrap_s(self.S(a) * self.S(b), n))
             return self.mk_u(n, self.wrap_u(self.U(a) * self.U(b), n))
         if op == "udiv":
-            return self.mk_u(n, self.U(a) / self.U(b))
+            r = self.mk_u(n, self.U(a) / self.U(b))
+            ua = self._urng(a)
+            r.urng = (0, ua[1]) if ua is not None else None
+            return r
         if op == "urem":
-            return self.mk_u(n, self.U(a) % self.U(b))
+            r = self.mk_u(n, self.U(a) % self.U(b))
+            ua, ub = self._urng(a), self._urng(b)
+            hi_ = min([x for x in ((ua[1] if ua else None), (ub[1] - 1 if ub else None)) if x is not None] or [None]) if (ua or ub) else None
+            r.urng = (0, max(hi_, 0)) if hi_ is not None else None
+            return r
         if op == "sdiv":
             x, y = self.S(a), self.S(b)
             return self.mk_s(n, z3.If(z3.And(x == lo, y == -1), z3.IntVal(lo), tdiv(x, y)))
@@ -604,7 +623,9 @@ class IntDom:
                         ur = self._urng(x)
                         if ur is not None and ur[1] <= y.c:
                             return x
-                        return self.mk_u(n, self.U(x) % (y.c + 1))
+                        r_ = self.mk_u(n, self.U(x) % (y.c + 1))
+                        r_.urng = (0, y.c)
+                        return r_
                     inv = (~y.c) & mask(n)
                     if (inv + 1) & inv == 0:  # clears the k low bits
                         return self.mk_u(n, self.U(x) - self.U(x) % (inv + 1))
@@ -741,6 +762,8 @@ class IntDom:
                 return hi_
             r = self.mk_u(n, self.U(a) / (1 << k))
             r.ubits = max(0, min(a.ubits, n) - k)
+            ua = self._urng(a)
+            r.urng = (ua[0] >> k, ua[1] >> k) if ua is not None else (0, (1 << max(0, n - k)) - 1)
             return r
         if a.fac is not None and a.fac[1] >= k:
             r = self.mk_s(n, a.fac[0] * (1 << (a.fac[1] - k)) if a.fac[1] > k else a.fac[0])
@@ -827,8 +850,16 @@ class IntDom:
         if a.c is not None and a.c == b.c:
             return a
         if self._pref(a, b) == "s":
-            return self.mk_s(a.bits, z3.If(c, self.S(a), self.S(b)))
-        return self.mk_u(a.bits, z3.If(c, self.U(a), self.U(b)))
+            r = self.mk_s(a.bits, z3.If(c, self.S(a), self.S(b)))
+            sa, sb = self._srng(a), self._srng(b)
+            if sa is not None and sb is not None:
+                r.srng = (min(sa[0], sb[0]), max(sa[1], sb[1]))
+            return r
+        r = self.mk_u(a.bits, z3.If(c, self.U(a), self.U(b)))
+        ua, ub = self._urng(a), self._urng(b)
+        if ua is not None and ub is not None:
+            r.urng = (min(ua[0], ub[0]), max(ua[1], ub[1]))
+        return r
 
     def with_overflow(self, kind, a, b):
         n = a.bits
